@@ -980,7 +980,8 @@ fn run_program_inner(c: &Case, sx: &mut Sx, dump: &mut Vec<Option<(usize, usize,
                 classes.push("decrypt_into_too_wide_plaintext_refused");
             }
             let mut pt = alloc_pt_vec_znx((n as u32).into(), (b as u32).into(), CKKSMeta { log_delta: pld, log_budget: dlb });
-            if let Err(e) = md.ckks_decrypt(&mut pt, &reg.ct, &cx.sk, sx.roomy()) {
+            // (exact-scratch runs: on a window of exactly ckks_decrypt_tmp_bytes)
+            if let Err(e) = md.ckks_decrypt(&mut pt, &reg.ct, &cx.sk, sx.op("ckks_decrypt", || md.ckks_decrypt_tmp_bytes(&reg.ct))) {
                 return fail(step, op, "decrypt-error", format!("register {ri}: ckks_decrypt into a plaintext of (log_delta {pld}, log_budget {dlb}) from a ciphertext of (log_delta {}, log_budget {}) failed: {e}", sh.ld, sh.lb));
             }
             if pld != sh.ld {
